@@ -56,6 +56,10 @@ pub struct SendRec {
     pub prev_tx_t: Option<Us>,
     /// time the last ACK that advanced the cumulative acknowledgement was processed
     pub last_progress_t: Option<Us>,
+    /// the sender's own recovery phase at the end of the poll that emitted this datagram (hooked
+    /// snapshot; None when snapshots were not recorded). Incoming packets are processed before
+    /// anything is sent in a poll, so this is the phase the datagram was sent in.
+    pub sender_phase: Option<&'static str>,
 }
 
 #[derive(Clone, Debug)]
@@ -353,7 +357,30 @@ pub fn build(events: &[Event], view: &WireView, real_is_initiator: bool, min_seg
                 is_newest: idx >= max_idx,
                 prev_tx_t: prev_t,
                 last_progress_t,
+                sender_phase: None,
             });
+        }
+    }
+    // the recovery phase at the end of the emitting poll, where snapshots were recorded
+    let local = view.conns.first().and_then(|c| c.dir(real_is_initiator).first().map(|pi| view.pkts[*pi].src));
+    if let Some(local) = local {
+        let ends: Vec<(usize, Us, &'static str)> = events
+            .iter()
+            .enumerate()
+            .filter_map(|(i, e)| match &e.ev {
+                Ev::Hook(librqbit_utp::verif::VerifEvent::PollEnd { id, snap, .. }) if id.local == local => Some((i, e.t, snap.recovery)),
+                _ => None,
+            })
+            .collect();
+        if !ends.is_empty() {
+            for s in m.sends.iter_mut() {
+                let k = ends.partition_point(|(i, _, _)| *i < s.ev_idx);
+                if let Some((_, t, ph)) = ends.get(k) {
+                    if *t == s.t {
+                        s.sender_phase = Some(*ph);
+                    }
+                }
+            }
         }
     }
     Some(m)
